@@ -163,6 +163,10 @@ def protocol_independence_obligations(ctx, rep, rule):
 
 def check(ctx, rep):
     prog = ctx.prog
+    rep.rule("R15i", "= R16k: the side files that become Gopher+ blocks (+ABSTRACT ...) are read through the VFS the handler works on, for archive "
+             "members as for real files", floor=3)
+    from .c16 import vfs_passing_obligations
+    vfs_passing_obligations(ctx, rep, "R15i")
     rep.rule("R15h", "= R10e: an entry served from the directory cache carries every field of the generated one (a size of 0 stays 0): +VIEWS and "
              "+INFO of a cached listing are those of a fresh one", floor=1)
     from .c10 import complete_pickling_obligations
